@@ -21,6 +21,10 @@ fn main() {
         "worker" => {
             std::process::exit(stress::worker_main());
         }
+        "hugecost" => {
+            let c: checks::HugeCostCase = serde_json::from_str(&args[2]).expect("bad case");
+            println!("{}", checks::huge_cost_child(&c));
+        }
         "selftest" => {
             println!("clock interposition ok; item_size = {}", gen::item_size());
         }
@@ -104,6 +108,10 @@ fn run_check(id: &str, tier: &str) -> i32 {
     let known = checks::known_findings(id);
     let mut known_hit: Vec<String> = Vec::new();
     let sparts = checks::stress_parts(id);
+    if id == "C01" && !failed(&outs) {
+        outs.push(checks::run_huge_cost_probe(id, tier, seed, stats, &known, &mut known_hit));
+        engines.push("huge-cost probe (generated costs at the top of the i64 range, one child process per case)".to_string());
+    }
     for part in sparts.iter() {
         if failed(&outs) {
             break;
@@ -253,6 +261,31 @@ fn run_replay(id: &str, file: &str) -> i32 {
                 println!("counterexample ({} of {} re-runs): {}", fails.len(), runs, fails[0]);
                 println!("VIOLATION property={} replay={}", id, file);
                 1
+            }
+        }
+        "hugecost" => {
+            let case: checks::HugeCostCase = serde_json::from_value(v["case"].clone()).expect("bad case");
+            let (status, msg, overflows) = checks::replay_huge_cost(&case);
+            match status.as_str() {
+                "ok" => {
+                    println!("replay: property {} held on this case", id);
+                    0
+                }
+                "harness" => {
+                    println!("INCONCLUSIVE {}", msg);
+                    2
+                }
+                _ => {
+                    if overflows {
+                        if let Some(k) = checks::known_findings(id).iter().find(|k| k.signature == "huge_cost_arithmetic_overflow") {
+                            println!("KNOWN-FINDING: property={} {} ({})", id, k.signature, k.what);
+                            return 0;
+                        }
+                    }
+                    println!("counterexample: [huge_cost] {:?}: {} - {}", case, status, msg);
+                    println!("VIOLATION property={} replay={}", id, file);
+                    1
+                }
             }
         }
         other => match checks::replay_comp(other, v["case"].clone()) {
